@@ -168,8 +168,8 @@ func (k *Keyed[K, V]) SetKey(key K, start bool) (V, bool) {
 			_ = v.deferRemove.Stop()
 			v.deferRemove = nil
 		}
-		if v.deferRetry != nil {
-			// cancel retrying this key
+		if start && v.deferRetry != nil {
+			// cancel retrying this key: it is restarted right away
 			_ = v.deferRetry.Stop()
 			v.deferRetry = nil
 		}
